@@ -10,6 +10,7 @@ CONSTANTS
   SaveAsSet = {"none", "file", "dir"}
   ContainMode = "ancestry"
   DestMode = "normalised"
+  CopyMode = "content"
   DenyFactories = {}
   DenyMax = 0
 INVARIANT Contained
